@@ -237,7 +237,7 @@ pub proof fn lemma_link_expected(max: int, t: Transfer, p: Seq<u8>)
 
 //@@ fn file=fe2o3-amqp/src/link/sender_link.rs name=send_transfer
 //@@ param writer : &mut ChanSender<LinkFrame>
-//@@ subst `.map_err(|_v0| __E1)` => `.map_err(|_v0: ChanSendError| -> (o: LinkStateError) ensures o == link_stop_err(session_stop_reason.val()) { __E1 })` rule=R18
+//@@ subst `.map_err(|_v0| __E1)` => `.map_err(|_v0: ChanSendError| -> (o: LinkStateError) ensures o == link_stop_err(session_stop_reason.val()) { __E1 })` rule=R18 unless `\.map_err\(`
 //@@ spec
     ensures
         r is Ok ==> final(writer).sent@ == old(writer).sent@.push(LinkFrame::Transfer { input_handle, performative: transfer, payload }),   // [C01.link.send-frame] the frame queued is the performative and payload given
